@@ -86,7 +86,7 @@ def _insert_cases(draw, tier):
         dirs = [draw(st.one_of(st.none(), ins_desc())) for _ in range(pdim)]
         if all(x is None for x in dirs):
             dirs[draw(st.integers(0, pdim - 1))] = draw(ins_desc())
-        ops.append({"dirs": dirs, "form": draw(st.sampled_from(["ops", "method", "method-defaults"]))})
+        ops.append({"dirs": dirs, "form": draw(st.sampled_from(["ops", "method", "method-defaults", "method-nocheck"]))})
     if not d["normalize"] and draw(st.integers(0, 2)) == 0:
         # the documented ``precision`` keyword together with normalize_kv=False: nothing is normalised, so nothing is rounded
         d["precision"] = draw(st.sampled_from([3, 4, 6]))
@@ -110,6 +110,14 @@ def _do_insert(obj, params, nums, form):
             obj.insert_knot(params[0], **kw)
         else:
             obj.insert_knot(**kw)
+    elif form == "method-nocheck":
+        # the caller vouches for the counts (documented switch check_r=False); admissible counts behave as with the check
+        if pdim == 1:
+            obj.insert_knot(params[0], num=nums[0], check_r=False)
+        elif pdim == 2:
+            obj.insert_knot(u=params[0], v=params[1], num_u=nums[0], num_v=nums[1], check_r=False)
+        else:
+            obj.insert_knot(u=params[0], v=params[1], w=params[2], num_u=nums[0], num_v=nums[1], num_w=nums[2], check_r=False)
     elif pdim == 1:
         obj.insert_knot(params[0], num=nums[0])
     elif pdim == 2:
